@@ -71,10 +71,12 @@ def run(model, R):
                 return 'D'
             if name_is(n, p_ext):
                 return 'E'
+            if name_is(n, v):
+                return 'C'          # the candidate itself (a property set): only its emptiness can matter
             return None
         try:
-            pred = bitalg.compile_pred(t, var_of, lambda x: 'O')
-            pats = list(bitalg.patterns(['D', 'E']))
+            pred = bitalg.compile_pred(t, var_of, lambda x: 'P' if x == 'C' else 'O')
+            pats = list(bitalg.patterns(['D', 'E', 'C'] if 'C' in {var_of(n) for n in ast.walk(t)} else ['D', 'E']))
             spec = bitalg.Pred(lambda occ: all(r['D'] == r['E'] for r in occ) == pol, 'D == E')
             diff = bitalg.equivalent(pred, spec, pats)
             R.decided(diff is None, 'MINIMIZE', func, t, 'yield a candidate iff it regenerates exactly the extent',
@@ -112,6 +114,10 @@ def run(model, R):
             src(r[0])[:140] if r else '')
     f = model.func('lattice_members.Infimum.minimal')
     R.returns(f, 'self._intent.members()', 'MINIMIZE', 'Infimum.minimal(): the full intent')
+    # ... and the bottom concept really is an Infimum, also when it is the only concept
+    from . import c06
+    fi = model.func('lattices.Data._init')
+    c06.class_patches(R, fi, fi.params[0], rule='MINIMIZE')
     # Infimum really overrides Concept.minimal
     inf = model.cls('lattice_members.Infimum')
     R.check(any(b.name == 'Concept' for b in inf.bases), 'MINIMIZE', 'lattice_members.Infimum', inf.node, 'Infimum derives from Concept', 'class Infimum(Concept)')
